@@ -50,7 +50,7 @@ func init() { register(c20{}) }
 func (c20) ID() string { return "C20" }
 func (c20) Rule() string {
 	return "four monitors on the exported layers: MQ (complete enumeration of all (bit,context) sequences up to a length over 2 contexts for several initial-state variants, batched, distinct by construction; seeded random/adversarial sequences up to 1e5 symbols, 1..19 contexts, bias 0..100%), " +
-		"T1 (EncodeLayered -> DecodeLayeredWithMode driven with the cumulative pass lengths the encoder reports, all 64 style combinations x block shapes x orientations), 5/3 DWT (complete enumeration of 1-D signals over {-2..2} for both parities; 2-D multilevel with origin parity), RCT (complete [-8..8]^3, random triples within +-2^28). " +
+		"T1 (EncodeLayered -> DecodeLayeredWithMode driven with the cumulative pass lengths the encoder reports, all 64 style combinations x block shapes x orientations; style 0 also through DecodeWithBitplane), 5/3 DWT (complete enumeration of 1-D signals over {-2..2} for both parities; 2-D multilevel with origin parity), RCT (complete [-8..8]^3, random triples within +-2^28). " +
 		"non-trivial: the encoder produced output that the decoder consumed and the results were compared (all-zero T1 blocks, for which EncodeLayered emits nothing, are counted trivial); distinct = distinct descriptor"
 }
 func (c20) Assumptions() []string {
@@ -431,6 +431,25 @@ func c20T1(c *c20Case) mon.Result {
 			res.Msg = fmt.Sprintf("coefficient (%d,%d): decoded %d, encoded %d; passes=%d maxBitplane=%d bytes=%d", i%c.W, i/c.W, out[i], in[i], len(passes), maxBp, len(data))
 			return res
 		}
+	}
+	if c.Style == 0 {
+		// the tile decoder's other entry point (a code-block without pass lengths): one
+		// segment, all passes
+		dec2 := t1.NewT1Decoder(c.W, c.H, c.Style)
+		dec2.SetOrientation(c.Orient)
+		if err := dec2.DecodeWithBitplane(data, len(passes), maxBp, 0); err != nil {
+			res.V, res.Class, res.Msg = mon.Violated, "t1-decode-error", "DecodeWithBitplane: "+err.Error()
+			return res
+		}
+		out2 := dec2.GetData()
+		for i := range in {
+			if out2[i] != in[i] {
+				res.V, res.Class = mon.Violated, "t1-mismatch"
+				res.Msg = fmt.Sprintf("DecodeWithBitplane: coefficient (%d,%d): decoded %d, encoded %d; passes=%d maxBitplane=%d bytes=%d", i%c.W, i/c.W, out2[i], in[i], len(passes), maxBp, len(data))
+				return res
+			}
+		}
+		res.AddFeat("t1_blocks_also_decoded_through_DecodeWithBitplane", 1)
 	}
 	return res
 }
